@@ -135,12 +135,13 @@ type spec struct {
 	class   string
 	entries []*entry // all generated entries, in add order (DELETED ones included)
 	route   string
+	factory string   // "registry" (aead.New ...) or "configV0" (aead.NewWithConfig(h, aeadconfig.V0()) ...)
 	history []string // Manager operations performed (manager route)
 }
 
 func (s *spec) String() string {
 	var b strings.Builder
-	fmt.Fprintf(&b, "class=%s route=%s keyset:", s.class, s.route)
+	fmt.Fprintf(&b, "class=%s route=%s factory=%s keyset:", s.class, s.route, s.factory)
 	for _, e := range s.entries {
 		fmt.Fprintf(&b, "\n  %s", e)
 	}
